@@ -393,6 +393,25 @@ func reifyValue(
 	t reflect.Type,
 	val value,
 ) (reflect.Value, Error) {
+	// A reference to an object or list stays active (for the detection of
+	// cycles) while the referenced setting is unpacked: the target type may be
+	// recursive, so only the configuration can end the recursion.
+	if dyn, ok := val.(*cfgDynamic); ok {
+		var out reflect.Value
+		var outErr Error
+		handled := false
+		var err error
+		dyn.withValue(&err, opts.opts, func(v value) {
+			if sub, isSub := v.(cfgSub); isSub {
+				handled = true
+				out, outErr = reifyValue(opts, t, sub)
+			}
+		})
+		if handled {
+			return out, outErr
+		}
+	}
+
 	if t.Kind() == reflect.Interface && t.NumMethod() == 0 {
 		reified, err := val.reify(opts.opts)
 		if err != nil {
@@ -470,6 +489,24 @@ func reifyMergeValue(
 	opts fieldOptions,
 	oldValue reflect.Value, val value,
 ) (reflect.Value, Error) {
+	// see reifyValue: a reference to an object or list stays active while the
+	// referenced setting is unpacked
+	if dyn, ok := val.(*cfgDynamic); ok {
+		var out reflect.Value
+		var outErr Error
+		handled := false
+		var err error
+		dyn.withValue(&err, opts.opts, func(v value) {
+			if sub, isSub := v.(cfgSub); isSub {
+				handled = true
+				out, outErr = reifyMergeValue(opts, oldValue, sub)
+			}
+		})
+		if handled {
+			return out, outErr
+		}
+	}
+
 	old := chaseValueInterfaces(oldValue)
 	t := old.Type()
 	old = chaseValuePointers(old)
